@@ -524,3 +524,87 @@ def order_structs(tier):
     for i in range(0, len(fields), 6):
         out.append({"fields": [F("f%d" % j, ty, *attrs) for j, (ty, attrs) in enumerate(fields[i:i + 6])]})
     return out
+
+
+# ------------------------------------------------------------------ run histories (edits between runs)
+SAME_LEN_MSGS = [["too small", "too short", "too large", "not valid", "bad value"], ["no", "ok", "hm"],
+                 ["value is out of bounds", "value is not accepted", "please check the size"], ["wrong", "short", "large"]]
+
+
+def _hist_fields(rng):
+    g = rng.choice(SAME_LEN_MSGS)
+    g2 = rng.choice(SAME_LEN_MSGS)
+    d = lambda: str(rng.randint(1, 9))
+    dd = lambda: str(rng.randint(10, 99))
+    return [
+        F("name", "s", V(length(bound("min", d()), bound("max", dd()), msg(rng.choice(g))))),
+        F("age", ["n", rng.choice(["i32", "u8", "f64"])], V(rangev(bound("min", d()), bound("max", dd())))),
+        F("tags", ["v", "s"], V(length(bound("min", d()), msg(rng.choice(g))))),
+        F("mail", ["o", "s"], V(email(), length(bound("max", dd())))),
+        F("note", "s", V(length(bound("max", dd()), msg(rng.choice(g2))))),
+    ]
+
+
+def _args(f, kind):
+    for a in f["attrs"]:
+        for it in a["items"]:
+            if it["k"] == kind:
+                return it["args"]
+    return None
+
+
+def _edit(rng, structs):
+    """returns (new structs, edit name); same-width edits keep the byte size of types.ts"""
+    import copy
+    st = copy.deepcopy(structs)
+    fields = [f for s in st for f in s["fields"]]
+    bounds = [a for f in fields for k in ("length", "range") for a in (_args(f, k) or []) if a["k"] in ("min", "max")]
+    msgs = [a for f in fields for k in ("length", "range") for a in (_args(f, k) or []) if a["k"] == "msg"]
+    kind = rng.choice(["digit", "digit", "message", "message", "swap-bounds", "swap-messages", "grow-bound", "grow-message", "add-url"])
+    if kind == "digit":
+        a = rng.choice(bounds)
+        last = a["lit"][-1]
+        a["lit"] = a["lit"][:-1] + rng.choice([c for c in "123456789" if c != last])
+    elif kind == "message":
+        a = rng.choice(msgs)
+        group = [g for g in SAME_LEN_MSGS if a["value"] in g][0]
+        v = rng.choice([m for m in group if m != a["value"]])
+        a.update(msg(v))
+    elif kind == "swap-bounds":
+        same = [(x, y) for i, x in enumerate(bounds) for y in bounds[i + 1:] if len(x["lit"]) == len(y["lit"]) and x["lit"] != y["lit"]]
+        if not same:
+            return _edit(rng, structs)
+        x, y = rng.choice(same)
+        x["lit"], y["lit"] = y["lit"], x["lit"]
+    elif kind == "swap-messages":
+        same = [(x, y) for i, x in enumerate(msgs) for y in msgs[i + 1:] if len(x["value"]) == len(y["value"]) and x["value"] != y["value"]]
+        if not same:
+            return _edit(rng, structs)
+        x, y = rng.choice(same)
+        xv, yv = x["value"], y["value"]
+        x.update(msg(yv))
+        y.update(msg(xv))
+    elif kind == "grow-bound":
+        a = rng.choice(bounds)
+        a["lit"] = a["lit"] + "0"
+    elif kind == "grow-message":
+        a = rng.choice(msgs)
+        a.update(msg(a["value"] + " now"))
+    else:
+        f = rng.choice([f for f in fields if f["name"] == "note"])
+        f["attrs"][0]["items"].append(url())
+    return st, kind
+
+
+def history_cases(rng, n):
+    out = []
+    for _ in range(n):
+        structs = [{"fields": _hist_fields(rng)} for _ in range(rng.randint(1, 2))]
+        steps = [{"structs": structs, "force": rng.random() < 0.5}]
+        edits = []
+        for _ in range(rng.randint(1, 2)):
+            structs, e = _edit(rng, structs)
+            edits.append(e)
+            steps.append({"structs": structs, "force": rng.random() < 0.5})
+        out.append({"steps": steps, "edits": edits})
+    return out
